@@ -34,27 +34,27 @@ type Client struct {
 
 // Scenario is everything that defines one simulated run besides the code.
 type Scenario struct {
-	Prop       string         `json:"prop"`
-	Class      string         `json:"class,omitempty"`
-	Seed       uint64         `json:"seed"` // scheduling / fault PRNG
-	Engine     string         `json:"engine"`
-	MetricsKV  bool           `json:"metrics_kv,omitempty"`
-	Free       simkv.Freedoms `json:"free,omitempty"`
-	Prefix     string         `json:"prefix"`
-	Skipped    []string       `json:"skipped,omitempty"`
-	WatchCache int            `json:"watch_cache,omitempty"`
-	InitRev    uint64         `json:"init_rev"`
-	EtcdCompat bool           `json:"etcd_compat,omitempty"`
-	Inactive   []string       `json:"inactive,omitempty"`
-	Stick      float64        `json:"stick,omitempty"`
-	Prologue   []Op           `json:"prologue,omitempty"`
-	Clients    []Client       `json:"clients"`
-	Plan       []*simkv.Fault `json:"plan,omitempty"`
-	Rates      simkv.Rates    `json:"rates,omitempty"`
-	MaxSteps   int            `json:"max_steps,omitempty"`
-	Parts      []string       `json:"parts,omitempty"` // partition borders (hex of internal keys) for the seam
+	Prop       string           `json:"prop"`
+	Class      string           `json:"class,omitempty"`
+	Seed       uint64           `json:"seed"` // scheduling / fault PRNG
+	Engine     string           `json:"engine"`
+	MetricsKV  bool             `json:"metrics_kv,omitempty"`
+	Free       simkv.Freedoms   `json:"free,omitempty"`
+	Prefix     string           `json:"prefix"`
+	Skipped    []string         `json:"skipped,omitempty"`
+	WatchCache int              `json:"watch_cache,omitempty"`
+	InitRev    uint64           `json:"init_rev"`
+	EtcdCompat bool             `json:"etcd_compat,omitempty"`
+	Inactive   []string         `json:"inactive,omitempty"`
+	Stick      float64          `json:"stick,omitempty"`
+	Prologue   []Op             `json:"prologue,omitempty"`
+	Clients    []Client         `json:"clients"`
+	Plan       []*simkv.Fault   `json:"plan,omitempty"`
+	Rates      simkv.Rates      `json:"rates,omitempty"`
+	MaxSteps   int              `json:"max_steps,omitempty"`
+	Parts      []string         `json:"parts,omitempty"` // partition borders (hex of internal keys) for the seam
 	Extra      map[string]int64 `json:"extra,omitempty"`
-	Forced     []string       `json:"forced,omitempty"`
+	Forced     []string         `json:"forced,omitempty"`
 }
 
 // Clone makes a deep copy through JSON-compatible structure copying.
